@@ -41,11 +41,14 @@ class Goldens:
         self.base = int(os.environ.get("VERIF_SEED", "1") or 1)
 
     def get(self, seed: int, keys: dict) -> dict:
-        """Goldens for `keys`. Everything a golden process depends on is derived from the
-        *content* of the batch it computes (sorted compile keys), never from the seed whose
-        thread happens to compute it first: the verdict for a key does not depend on timing.
-        (Two threads may compute the same key concurrently; both results are stored under one
-        lock acquisition and, on a deterministic compiler, are equal.)"""
+        """Goldens for `keys`. The hash seeds of the golden processes are derived from the batch
+        seed (VERIF_SEED) and the *content* of the batch of keys computed together. Which keys
+        are still uncached when a seed asks -- and so the composition of the batch -- depends on
+        thread timing: on a deterministic compiler that changes nothing; on a tree whose output
+        depends on the hash seed, WHICH run reports `golden-disagree` may vary from run to run
+        (some run does), and the report carries the batch so that its replay recomputes the very
+        same golden processes. (Two threads may compute the same key concurrently; results are
+        stored under one lock acquisition, first one wins.)"""
         with self.lock:
             need = {k: v for k, v in keys.items() if k not in self.cache}
         if need:
@@ -111,8 +114,12 @@ def plan_timeout(plan: dict) -> float:
     return 600.0 + 0.5 * n
 
 
+HANG_CONFIRM_FACTOR = 20
+
+
 def _wall_stalls(res: dict):
-    return [(rec["i"], rec["op"]) for rec in res["history"] if rec.get("outcome") == "hang:wall"]
+    """Operations ended by a limit: the step budget (hang:steps) or the CPU/real-time backstop."""
+    return [(rec["i"], rec["op"]) for rec in res["history"] if rec.get("outcome", "").startswith("hang:")]
 
 
 def execute_checked(plan: dict):
@@ -121,9 +128,13 @@ def execute_checked(plan: dict):
     * a worker that dies or has to be killed is re-run; only if it ends the same way again,
       *inside the same call into the system under test* (write-ahead markers), is that a
       violation attributed to the operation -- anything else is a failure of the machinery;
-    * an operation stopped by the real-time/CPU-time backstop (hang:wall) is only believed if
-      it stalls again at 3x the limit; otherwise the result of that re-run (same plan, same
-      steps) is the result -- machine load must neither raise an alarm nor break the check."""
+    * an operation stopped by a limit -- the calibrated step budget (hang:steps) or the CPU-time /
+      real-time backstop (hang:wall) -- is only believed if it does not finish either when the
+      whole plan is run again with 20x the limits; otherwise that re-run is the result. The
+      budgets are calibrated on ordinary schemas; an accepted schema may legitimately cost far
+      more (optimization mode unrolls arrays: a 255-element array of a 68-level chain of
+      messages, inlined into 231 enclosing messages, is 112 MB of Go and 50 s of CPU), and
+      neither that nor machine load may raise an alarm. An endless loop fails at any factor."""
     t = plan_timeout(plan)
     r = runner.run_plan(plan, timeout=t)
     if r["status"] != "ok":
@@ -141,8 +152,9 @@ def execute_checked(plan: dict):
     if stalls:
         _bump("wall_stalls_seen")
         p2 = copy.deepcopy(plan)
-        p2["wall_factor"] = 3
-        r3 = runner.run_plan(p2, timeout=3 * t)
+        p2["wall_factor"] = HANG_CONFIRM_FACTOR
+        p2["budget_factor"] = HANG_CONFIRM_FACTOR
+        r3 = runner.run_plan(p2, timeout=3 * t + 2 * HANG_CONFIRM_FACTOR * 25.0 * len(stalls))
         if r3["status"] != "ok":
             raise runner.HarnessFailure("confirmation run of a wall-clock stall %s: %s" % (r3["status"], (r3.get("stderr") or "")[-800:]))
         if _wall_stalls(r3["result"])[:1] == stalls[:1]:
@@ -973,6 +985,7 @@ def farm_phase(prop: str, seeds, jobs: int, n: int):
             v["phase"] = "farm"
             if v.get("key"):
                 v["golden"] = goldens.get(v["key"])
+                v["request"] = keys.get(v["key"])
         out.extend(vs)
     return info, out
 
